@@ -4,7 +4,7 @@ import json
 from lib import core, sexp, dslgen, tf
 from lib.dslgen import S
 
-FAMILIES = ("transform",)
+FAMILIES = ("transform", "layout")
 
 
 def nontrivial(f):
@@ -90,9 +90,11 @@ def theorem_layouts(ctx, n):
     models += c02.tree_models([t for k in (1, 2, 3, 4) for t in c02.all_trees(k)])
     choice = [(rng.choice(runs), rng.choice(breaks)) for _ in models]
     try:
-        th = ctx.model(tf.FAM, ["(209 %s %s %s)" % (sexp.enc(S(w)), sexp.enc(S(b)), sexp.enc(m)) for m, (w, b) in zip(models, choice)])
+        th = ctx.model("layout", ["(209 %s %s %s)" % (sexp.enc(S(w)), sexp.enc(S(b)), sexp.enc(m)) for m, (w, b) in zip(models, choice)])
     except core.ModelUnavailable:
-        tf.model_unavailable(ctx)
+        # the layout family is extracted from proof files: it is missing exactly when one of them does not compile,
+        # which the proof ledger reports as broken obligations
+        ctx.count("theorem_layout_family_unavailable")
         return
     app = [(m, c, r) for m, c, r in zip(models, choice, th) if r and r[0] == 1]
     ctx.count("theorem_layout_applicable", len(app))
